@@ -834,7 +834,12 @@ struct FilesEngine : Engine {
 			 * they must resolve to nothing, whatever was resolved before them */
 			std::string badimg;
 			if ((h >> 9) & 1) {
-				const char *bm = ((h >> 10) & 1) ? "nomap:" : "bad:";
+				std::string bm = ((h >> 10) & 1) ? "nomap:" : "bad:";
+				if (((h >> 16) & 3) == 0) {
+					/* a map name that does not fit the path buffer: refused, nothing written */
+					static const size_t lens[] = {4000, 4080, 4090, 4100, 4127, 4130, 4200, 5000, 100000};
+					bm = std::string(lens[(h >> 18) % 9], 'M') + ":";
+				}
 				std::vector<std::string> s2 = {specs[0], bm + ent[pick[1 % pick.size()]].first, specs[1], bm + ent[pick[0]].first, bm + ent[pick[0]].first};
 				std::vector<std::string> p2 = {plain[0], "", plain[1], "", ""};
 				specs = s2;
@@ -858,7 +863,7 @@ struct FilesEngine : Engine {
 			}
 			bool usable = true;
 			for (auto &sp : specs)
-				if (sp.size() > 200 || sp.find_first_of(" \t\n") != std::string::npos || sp[0] == '-')
+				if ((sp.size() > 200 && sp[0] != 'M') || sp.find_first_of(" \t\n") != std::string::npos || sp[0] == '-')
 					usable = false;
 			/* dzone takes a name it cannot open for a date/time and then prints differently: installed zones only */
 			for (auto &z : plain) {
